@@ -192,6 +192,25 @@ async def send(gateway: Gateway, msg: Any, buffer: bool | None = None) -> tuple[
     return "ok", None
 
 
+async def send_nothing_and_listen(gateway: Gateway) -> tuple[str, Any]:
+    """One anext() on a fresh listen() generator; the caller queued the lines (used for concurrent listeners)."""
+    agen = gateway.listen()
+    try:
+        msg = await agen.__anext__()
+    except AIOMySensorsError as err:
+        return "liberr", err
+    except Drained:
+        return "drained", None
+    except Exception as err:  # noqa: BLE001
+        return "leak", err
+    finally:
+        try:
+            await agen.aclose()
+        except Exception:  # noqa: BLE001
+            pass
+    return "ok", msg
+
+
 def mk_message(fields: list) -> Message:
     return Message(fields[0], fields[1], fields[2], fields[3], fields[4], fields[5])
 
